@@ -102,7 +102,9 @@ func printParse(c *h.Ctx, class string, rm *ref.Msg) string {
 
 var nameRunes = []string{"a", "Z", "0", "9", "_", "-", ">", "<", "[", "]", ".", "/", "W", "w", "S", "F", "H", "E", "1", "?", "!", "\"", "'", "\\", "*", "+", ",", ":", ";", "=", "@", "#", "é", "語", "�", "\xff", "~", "|", "{", "("}
 
-var longNames = []string{"AreYouThere?", "a<b>", "x.y.", "S2", "[W", "h-e", "S1F", "SF1", "F1", "Wafer", "wait", "H->", "H-E", "He", "name//x", "a/b", "S1F1x", "[w]x", "/", "/x/", "x/", "<", "...", "L", "A", "<A>", "日本語メッセージ", "a b", "x\ty"}
+var longNames = []string{"AreYouThere?", "a<b>", "x.y.", "S2", "[W", "h-e", "S1F", "SF1", "F1", "Wafer", "wait", "H->", "H-E", "He", "name//x", "a/b", "S1F1x", "[w]x", "/", "/x/", "x/", "<", "...", "L", "A", "<A>", "日本語メッセージ", "a b", "x\ty",
+	// characters that Unicode case folding maps to letters of the header tokens (long s, Kelvin sign, dotless / dotted i)
+	"\u017f1f1", "\u017f6F11", "\u017f127f255", "\u017f1f1_Report", "\u017f", "\u017ftart", "x\u017f1f1", "[\u017f]", "\u212a", "h->\u212a", "\u0131", "\u0130", "\u017f1\u017f1", "S1\u017f1"}
 
 func init() {
 	h.Register(&h.Check{
